@@ -10,6 +10,7 @@ mod c18;
 mod c19;
 mod real;
 mod harness;
+mod pipes;
 mod probes;
 mod rng;
 mod shellrun;
